@@ -33,7 +33,7 @@ var profC01 = &hist.Profile{
 	Name: "C01", MinOps: 10, MaxOps: 40, Topics: 3, Subs: 4,
 	W: map[string]int{
 		hist.OpPublish: 18, hist.OpPull: 20, hist.OpAck: 9, hist.OpModAck: 5, hist.OpNack: 4, hist.OpStreamAck: 1, hist.OpAdvance: 16,
-		hist.OpSeekTime: 3, hist.OpSnapshot: 4, hist.OpSeekSnap: 5, hist.MacroSnapRoundtrip: 1, hist.OpJob: 5, hist.OpSweep: 3, hist.OpExpireSubs: 1, hist.OpStream: 2,
+		hist.OpSeekTime: 3, hist.OpSnapshot: 4, hist.OpSeekSnap: 5, hist.MacroSnapRoundtrip: 3, hist.OpJob: 5, hist.OpSweep: 3, hist.OpExpireSubs: 1, hist.OpStream: 2,
 		hist.OpCreateSub: 6, hist.OpDeleteSub: 2, hist.OpCreateTopic: 2, hist.OpDeleteTopic: 1, hist.OpUpdateSub: 2, hist.OpGetSub: 1,
 	},
 	Ordered: 30, Keys: []string{"", "", "K1", "K2"}, Filters: hist.DefaultFilters,
@@ -72,7 +72,7 @@ var profC02 = &hist.Profile{
 	Name: "C02", MinOps: 10, MaxOps: 40, Topics: 3, Subs: 5,
 	W: map[string]int{
 		hist.OpPublish: 22, hist.OpPull: 24, hist.OpAck: 9, hist.OpModAck: 4, hist.OpNack: 3, hist.OpAdvance: 12,
-		hist.OpSeekTime: 3, hist.OpSweep: 2, hist.OpJob: 2, hist.OpSnapshot: 5, hist.OpSeekSnap: 6, hist.MacroSnapRoundtrip: 1, hist.OpStream: 2,
+		hist.OpSeekTime: 3, hist.OpSweep: 2, hist.OpJob: 2, hist.OpSnapshot: 5, hist.OpSeekSnap: 6, hist.MacroSnapRoundtrip: 3, hist.OpStream: 2,
 		hist.OpCreateSub: 9, hist.OpDeleteSub: 2, hist.OpCreateTopic: 2, hist.OpDeleteTopic: 1, hist.OpUpdateSub: 3,
 	},
 	Ordered: 20, Keys: []string{"", "", "K1", "ключ", "k 2"}, Filters: hist.DefaultFilters,
